@@ -273,6 +273,26 @@ impl DeltaSpec {
         }
     }
 }
+/// Start value of a replica: disjoint (live, tombstoned) key masks (`nb` false: bottom).
+fn start_masks(sim: &mut Sim, nk: usize, nb: bool) -> (u64, u64) {
+    if !nb {
+        return (0, 0);
+    }
+    let tomb = sim.choose("start_tombs", 0, (1u64 << nk) - 1);
+    let live = sim.choose("start_live", 0, (1u64 << nk) - 1) & !tomb;
+    (live, tomb)
+}
+/// Non-bottom value item masks (subsets of {0,1,2}) for the live keys of a map start value.
+fn start_vals(sim: &mut Sim, live: u64) -> [u8; NKEYS] {
+    let mut out = [0u8; NKEYS];
+    for k in subset(live, NKEYS as u8) {
+        out[k as usize] = sim.choose("start_val", 1, 7) as u8;
+    }
+    out
+}
+fn start_entries<K: Key>(vals: &[u8; NKEYS]) -> Vec<(K, V8)> {
+    (0..NKEYS).filter(|&k| vals[k] != 0).map(|k| (K::key(k), SetUnion::new(subset(vals[k] as u64, 3).into_iter().collect()))).collect()
+}
 fn keys_of<K: Key>(mask: u64) -> Vec<K> {
     subset(mask, NKEYS as u8).into_iter().map(|i| K::key(i as usize)).collect()
 }
@@ -363,7 +383,7 @@ macro_rules! set_tomb_gen {
             HH(SH<$K>),
             Ins(SIns<$K>), Del(SDel<$K>), Opt(SOpt<$K>), Mix(SMix<$K>),
         }
-        pub struct $Gen { nk: usize, carriers: Vec<u64> }
+        pub struct $Gen { nk: usize, inits: Vec<$St> }
         impl LatticeGen for $Gen {
             const NAME: &'static str = $name;
             type State = $St;
@@ -371,12 +391,17 @@ macro_rules! set_tomb_gen {
             fn new(sim: &mut Sim, n: usize) -> Self {
                 let nk = sim.choose("keys", 2, NKEYS as u64) as usize;
                 let nvar = [$( stringify!($SV) ),+].len() as u64;
-                let carriers = (0..n).map(|_| sim.choose("carrier", 0, nvar - 1)).collect();
-                $Gen { nk, carriers }
+                let nb = crate::gens::nonbottom_start(sim);
+                let inits = (0..n).map(|_| {
+                    // a legal start value: live keys and tombstones disjoint
+                    let (live, tomb) = start_masks(sim, nk, nb);
+                    let all = [$( $St::$SV(SetUnionWithTombstones::new(keys_of::<$K>(live).into_iter().collect(), keys_of::<$K>(tomb).into_iter().collect())) ),+];
+                    all[sim.choose("carrier", 0, nvar - 1) as usize].clone()
+                }).collect();
+                $Gen { nk, inits }
             }
             fn init(&self, i: usize) -> $St {
-                let all = [$( $St::$SV(Default::default()) ),+];
-                all[self.carriers[i] as usize].clone()
+                self.inits[i].clone()
             }
             fn delta(&mut self, sim: &mut Sim, _i: usize, _st: &$St) -> $Msg {
                 let spec = DeltaSpec::generate(sim, self.nk, true);
@@ -447,7 +472,7 @@ macro_rules! map_tomb_gen {
             HH(MH<$K>),
             Ins(MIns<$K>), Del(MDel<$K>), Mix(MMix<$K>),
         }
-        pub struct $Gen { nk: usize, carriers: Vec<u64> }
+        pub struct $Gen { nk: usize, inits: Vec<$St> }
         impl LatticeGen for $Gen {
             const NAME: &'static str = $name;
             type State = $St;
@@ -455,12 +480,17 @@ macro_rules! map_tomb_gen {
             fn new(sim: &mut Sim, n: usize) -> Self {
                 let nk = sim.choose("keys", 2, NKEYS as u64) as usize;
                 let nvar = [$( stringify!($SV) ),+].len() as u64;
-                let carriers = (0..n).map(|_| sim.choose("carrier", 0, nvar - 1)).collect();
-                $Gen { nk, carriers }
+                let nb = crate::gens::nonbottom_start(sim);
+                let inits = (0..n).map(|_| {
+                    let (live, tomb) = start_masks(sim, nk, nb);
+                    let vals = start_vals(sim, live);
+                    let all = [$( $St::$SV(MapUnionWithTombstones::new(start_entries::<$K>(&vals).into_iter().collect(), keys_of::<$K>(tomb).into_iter().collect())) ),+];
+                    all[sim.choose("carrier", 0, nvar - 1) as usize].clone()
+                }).collect();
+                $Gen { nk, inits }
             }
             fn init(&self, i: usize) -> $St {
-                let all = [$( $St::$SV(Default::default()) ),+];
-                all[self.carriers[i] as usize].clone()
+                self.inits[i].clone()
             }
             fn delta(&mut self, sim: &mut Sim, _i: usize, _st: &$St) -> $Msg {
                 let spec = DeltaSpec::generate(sim, self.nk, false);
@@ -628,24 +658,44 @@ pub struct TriSetMsg {
 pub struct TriSetGen {
     nk: usize,
     fst_on: bool,
+    inits: Vec<TriSet>,
 }
 
 impl LatticeGen for TriSetGen {
     const NAME: &'static str = "set_tomb_3backends";
     type State = TriSet;
     type Msg = TriSetMsg;
-    fn new(sim: &mut Sim, _n: usize) -> Self {
+    fn new(sim: &mut Sim, n: usize) -> Self {
         let fst_on = sim.flip("fst_stack", 1, FST_ONE_IN);
         if fst_on {
             sim.probe("fst_stack_in_run");
         }
-        TriSetGen { nk: sim.choose("keys", 2, NKEYS as u64) as usize, fst_on }
+        let nk = sim.choose("keys", 2, NKEYS as u64) as usize;
+        let nb = crate::gens::nonbottom_start(sim);
+        let inits = (0..n)
+            .map(|_| {
+                // the same legal start value (live and tombstoned keys disjoint) in every back end
+                let (live, tomb) = start_masks(sim, nk, nb);
+                let mut model = Model { tomb, ..Default::default() };
+                for k in subset(live, NKEYS as u8) {
+                    model.vals[k as usize] = 1;
+                }
+                TriSet {
+                    h: SetUnionWithTombstones::new(keys_of::<u64>(live).into_iter().collect(), keys_of::<u64>(tomb).into_iter().collect()),
+                    r: SetUnionWithTombstones::new(keys_of::<u64>(live).into_iter().collect(), keys_of::<u64>(tomb).into_iter().collect()),
+                    f: fst_on.then(|| SetUnionWithTombstones::new(keys_of::<String>(live).into_iter().collect(), keys_of::<String>(tomb).into_iter().collect())),
+                    model,
+                    flags_differ: None,
+                }
+            })
+            .collect();
+        TriSetGen { nk, fst_on, inits }
     }
     fn heavy(&self) -> bool {
         self.fst_on
     }
-    fn init(&self, _i: usize) -> TriSet {
-        TriSet { h: Default::default(), r: Default::default(), f: self.fst_on.then(Default::default), model: Model::default(), flags_differ: None }
+    fn init(&self, i: usize) -> TriSet {
+        self.inits[i].clone()
     }
     fn delta(&mut self, sim: &mut Sim, _i: usize, _st: &TriSet) -> TriSetMsg {
         let spec = DeltaSpec::generate(sim, self.nk, true);
@@ -753,6 +803,7 @@ pub struct TriMapMsg {
 pub struct TriMapGen {
     nk: usize,
     fst_on: bool,
+    inits: Vec<TriMap>,
 }
 fn live_vals<K: Key>(e: &[(K, Vec<u8>)]) -> [u8; NKEYS] {
     let mut out = [0u8; NKEYS];
@@ -771,18 +822,33 @@ impl LatticeGen for TriMapGen {
     const NAME: &'static str = "map_tomb_3backends";
     type State = TriMap;
     type Msg = TriMapMsg;
-    fn new(sim: &mut Sim, _n: usize) -> Self {
+    fn new(sim: &mut Sim, n: usize) -> Self {
         let fst_on = sim.flip("fst_stack", 1, FST_ONE_IN);
         if fst_on {
             sim.probe("fst_stack_in_run");
         }
-        TriMapGen { nk: sim.choose("keys", 2, NKEYS as u64) as usize, fst_on }
+        let nk = sim.choose("keys", 2, NKEYS as u64) as usize;
+        let nb = crate::gens::nonbottom_start(sim);
+        let inits = (0..n)
+            .map(|_| {
+                let (live, tomb) = start_masks(sim, nk, nb);
+                let vals = start_vals(sim, live);
+                TriMap {
+                    h: MapUnionWithTombstones::new(start_entries::<u64>(&vals).into_iter().collect(), keys_of::<u64>(tomb).into_iter().collect()),
+                    r: MapUnionWithTombstones::new(start_entries::<u64>(&vals).into_iter().collect(), keys_of::<u64>(tomb).into_iter().collect()),
+                    f: fst_on.then(|| MapUnionWithTombstones::new(start_entries::<String>(&vals).into_iter().collect(), keys_of::<String>(tomb).into_iter().collect())),
+                    model: Model { vals, tomb },
+                    flags_differ: None,
+                }
+            })
+            .collect();
+        TriMapGen { nk, fst_on, inits }
     }
     fn heavy(&self) -> bool {
         self.fst_on
     }
-    fn init(&self, _i: usize) -> TriMap {
-        TriMap { h: Default::default(), r: Default::default(), f: self.fst_on.then(Default::default), model: Model::default(), flags_differ: None }
+    fn init(&self, i: usize) -> TriMap {
+        self.inits[i].clone()
     }
     fn delta(&mut self, sim: &mut Sim, _i: usize, _st: &TriMap) -> TriMapMsg {
         let spec = DeltaSpec::generate(sim, self.nk, false);
